@@ -42,6 +42,13 @@ CHECKS = {
         "numpy/math elementary functions trusted; speed interval read as (0,1] after rounding; exponential law via the inverse-CDF identity.",
         "DESIGN.md §4 C07",
     ),
+    "C18": (
+        "exploration",
+        "Hypothesis property-based testing: byte-level write/read round trips in HDF5 and FITS over generated grids, slice and row-interpolation checks against own scalar references; exhaustive enumeration of every node of the shipped tables against the samplers' preconditions",
+        "Generated grids (1-4 dims, 10 data dtypes, independent axis dtypes, non-finite values, arbitrary ASCII names), slice coordinates at nodes/ulps/midpoints and rows with plateaus; shipped data enumerated completely (exhaustive for that clause). Evidence, not proof, for the generated part.",
+        "astropy.io.fits and h5py trusted for the bytes they are handed; stated format limits excluded from the domain.",
+        "DESIGN.md §4 C18",
+    ),
     "C19": (
         "exploration",
         "Hypothesis property-based testing: round-trip + pairwise monotonicity + copy-vs-copy differential + independent scalar reference, boundary-heavy generators with exhaustive ulp sweeps of the layer boundaries",
